@@ -18,8 +18,8 @@
 (* byte) is <<"?", code>> and breaks every contract.                        *)
 (*                                                                          *)
 (* CONTRACTS (…OK) state the property; the REFERENCE TRANSCRIPTIONS (…Ref)  *)
-(* follow text_util.rs step by step (with the intended guard in             *)
-(* write_truncated_start; Bug = "truncstart_strips" is today's code).       *)
+(* follow text_util.rs step by step (write_truncated_start with the guard   *)
+(* added by fix 032bffc; Bug = "truncstart_strips" is the code before it).  *)
 EXTENDS Naturals, Integers, Sequences, FiniteSets
 
 CONSTANT Bug
